@@ -2,7 +2,7 @@ import copy
 import pickle
 import pprint
 from io import BytesIO
-from numpy import ndarray
+from numpy import ndarray, array_equal
 from numpy.testing import assert_almost_equal
 from pandas.testing import assert_frame_equal
 from sklearn.base import BaseEstimator
@@ -177,6 +177,25 @@ def _assert_tuple_equal(t1, t2, ext):
             ext.assertEqual(a, b)
 
 
+def _same_state(a, b):
+    """
+    Compares two objects which do not define ``__eq__``
+    through the dictionary returned by ``__getstate__``.
+    """
+    if type(a) is not type(b) or not hasattr(a, "__getstate__"):
+        return False
+    sa, sb = a.__getstate__(), b.__getstate__()
+    if not isinstance(sa, dict) or not isinstance(sb, dict) or set(sa) != set(sb):
+        return False
+    for k, v in sa.items():
+        if isinstance(v, ndarray) or isinstance(sb[k], ndarray):
+            if not array_equal(v, sb[k]):
+                return False
+        elif v != sb[k]:
+            return False
+    return True
+
+
 def assert_estimator_equal(esta, estb, ext=None):
     """
     Checks that two models are equal.
@@ -207,7 +226,14 @@ def assert_estimator_equal(esta, estb, ext=None):
             if isinstance(getattr(esta, att), BaseEstimator):
                 assert_estimator_equal(getattr(esta, att), getattr(estb, att), ext)
             else:
-                ext.assertEqual(getattr(esta, att), getattr(estb, att))
+                va, vb = getattr(esta, att), getattr(estb, att)
+                try:
+                    ext.assertEqual(va, vb)
+                except AssertionError:
+                    # Objects which do not define equality (a fitted Tree)
+                    # are compared through their state.
+                    if not _same_state(va, vb):
+                        raise
     for att in estb.__dict__:
         if att.endswith("_") and not att.endswith("__"):
             assert hasattr(
